@@ -279,6 +279,62 @@ ROUND_TRIPS = [
      "fn probe<'a>(list: &'a Tape) -> R<'a> {\n    let x = Record::variable(0.5, list);\n    x.unary(|v| v.tanh(), |v| 1.0 / (v.cosh() * v.cosh()))\n}"),
 ]
 
+# ---- closures: lifetimes in closure-parameter bounds ----------------------------------------------
+# Every public method of Record / RecordTensor / RecordMatrix that takes a closure.  For closures over
+# *records* (`map*`) the documented bound is `impl Fn(Record<'a, T>, …) -> Record<'a, T>` with the
+# tape lifetime of the container: a closure may capture another `Record<'a, _>` of the same tape and
+# combine it with its argument, and a caller may pass on its own non-higher-ranked
+# `F: Fn(Record<'a, f64>, …) -> Record<'a, f64>`.  (An elided lifetime inside the `Fn` bound would make
+# it higher-ranked, `for<'r> Fn(Record<'r, T>) -> Record<'r, T>`, and reject both.)
+# For closures over plain numbers (`unary`, `binary`, `*_assign`, `do_*`) the closure may capture
+# numbers taken from another record.
+# (name, kind, receiver type, call with {F} / {G} / {H} placeholders, closures capturing `k` (R<'a>) or
+#  `kn` (f64), generic bound for the pass-through variant or None, result type, covers)
+CLOSURES = []
+
+
+def closure(name, kind, recv, call, fs, bound, result, covers):
+    CLOSURES.append({"name": name, "kind": kind, "recv": recv, "call": call, "fs": fs, "bound": bound,
+                     "result": result, "covers": covers})
+
+
+RES = {"RT": "Result<RT<'a>, InconsistentHistory<'a, f64>>", "RM": "Result<RM<'a>, InconsistentHistory<'a, f64>>",
+       "unit": "Result<(), InconsistentHistory<'a, f64>>"}
+closure("RecordTensor::map", "RT", "&RT<'a>", "c.map({F})", ["|x| x * k + k"], "Fn(R<'a>) -> R<'a>", RES["RT"], [(M, "map")])
+closure("RecordTensor::map_with_index", "RT", "&RT<'a>", "c.map_with_index({F})", ["|_, x| x * k + k"],
+        "Fn([usize; 2], R<'a>) -> R<'a>", RES["RT"], [(M, "map_with_index")])
+closure("RecordTensor::map_mut", "RT", "&mut RT<'a>", "c.map_mut({F})", ["|x| x * k + k"], "Fn(R<'a>) -> R<'a>", RES["unit"],
+        [(M, "map_mut")])
+closure("RecordTensor::map_mut_with_index", "RT", "&mut RT<'a>", "c.map_mut_with_index({F})", ["|_, x| x * k + k"],
+        "Fn([usize; 2], R<'a>) -> R<'a>", RES["unit"], [(M, "map_mut_with_index")])
+closure("RecordMatrix::map", "RM", "&RM<'a>", "c.map({F})", ["|x| x * k + k"], "Fn(R<'a>) -> R<'a>", RES["RM"], [(M, "map")])
+closure("RecordMatrix::map_with_index", "RM", "&RM<'a>", "c.map_with_index({F})", ["|x, _, _| x * k + k"],
+        "Fn(R<'a>, usize, usize) -> R<'a>", RES["RM"], [(M, "map_with_index")])
+closure("RecordMatrix::map_mut", "RM", "&mut RM<'a>", "c.map_mut({F})", ["|x| x * k + k"], "Fn(R<'a>) -> R<'a>", RES["unit"],
+        [(M, "map_mut")])
+closure("RecordMatrix::map_mut_with_index", "RM", "&mut RM<'a>", "c.map_mut_with_index({F})", ["|x, _, _| x * k + k"],
+        "Fn(R<'a>, usize, usize) -> R<'a>", RES["unit"], [(M, "map_mut_with_index")])
+U = ["|v| v * kn", "|_| kn"]
+B = ["|x, y| x * y * kn", "|_, y| y * kn", "|x, _| x * kn"]
+closure("Record::unary", "R", "&R<'a>", "c.unary({F}, {G})", U, None, "R<'a>", [(D, "unary")])
+closure("Record::binary", "R", "&R<'a>", "c.binary(d, {F}, {G}, {H})", B, None, "R<'a>", [(D, "binary")])
+for kind, ty in (("RT", "RT<'a>"), ("RM", "RM<'a>")):
+    nm = "RecordTensor" if kind == "RT" else "RecordMatrix"
+    closure(f"{nm}::unary", kind, f"&{ty}", "c.unary({F}, {G})", U, None, ty, [(M, "unary")])
+    closure(f"{nm}::binary", kind, f"&{ty}", "c.binary(d, {F}, {G}, {H})", B, None, ty, [(M, "binary")])
+    closure(f"{nm}::unary_assign", kind, f"&mut {ty}", "c.unary_assign({F}, {G})", U, None, "()", [(M, "unary_assign")])
+    closure(f"{nm}::binary_left_assign", kind, f"&mut {ty}", "c.binary_left_assign(d, {F}, {G}, {H})", B, None, "()",
+            [(M, "binary_left_assign")])
+    closure(f"{nm}::binary_right_assign", kind, f"&mut {ty}", "d.binary_right_assign(c, {F}, {G}, {H})", B, None, "()",
+            [(M, "binary_right_assign")])
+    closure(f"{nm}::do_unary_assign", kind, ty, "c.do_unary_assign({F}, {G})", U, None, ty, [(M, "do_unary_assign")])
+    closure(f"{nm}::do_binary_left_assign", kind, ty, "c.do_binary_left_assign(d, {F}, {G}, {H})", B, None, ty,
+            [(M, "do_binary_left_assign")])
+    closure(f"{nm}::do_binary_right_assign", kind, ty, "d.do_binary_right_assign(c, {F}, {G}, {H})", B, None, ty,
+            [(M, "do_binary_right_assign")])
+# closure-taking methods whose closures see no tape lifetime at all (Trace; TensorAccess over plain elements)
+CLOSURES_WITHOUT_TAPE = [(D, "derivative"), (X, "map"), (X, "map_with_index"), (X, "map_mut"), (X, "map_mut_with_index")]
+
 
 def pid(s):
     return re.sub(r"[^A-Za-z0-9]+", "_", s).strip("_")[:140]
@@ -321,6 +377,35 @@ def generate(workdir):
             emit(f"life_tape_{e['name']}",
                  f"[lifetime] the result of `{e['name']}` cannot outlive the tape", ("fail", ["E0597", "E0505", "E0716"]),
                  body, "lifetime.outlives-tape")
+    for cl in CLOSURES:
+        ctype, _mk = KIND[cl["kind"]]
+        fill = dict(zip(["F", "G", "H"], cl["fs"]))
+        call = cl["call"]
+        for key, val in fill.items():
+            call = call.replace("{" + key + "}", val)
+        body = (f"fn probe<'a>(c: {cl['recv']}, d: &{ctype}, other: &R<'a>) -> {cl['result']} {{\n"
+                "    let k: R<'a> = other.clone();\n    let kn: f64 = other.number;\n"
+                f"    {call}\n}}\nfn main() {{}}\n")
+        emit(f"life_closure_capture_{cl['name']}",
+             f"[lifetime] the closure passed to `{cl['name']}` may capture "
+             + ("another record of the same tape and combine it with its argument" if cl["bound"] else
+                "numbers taken from another record"),
+             ("compile", []), body, "lifetime.closure-captures")
+        if cl["bound"]:
+            call = cl["call"].replace("{F}", "f")
+            body = (f"fn probe<'a, F: {cl['bound']}>(c: {cl['recv']}, f: F) -> {cl['result']} {{\n    {call}\n}}\nfn main() {{}}\n")
+            emit(f"life_closure_passthrough_{cl['name']}",
+                 f"[lifetime] `{cl['name']}` accepts a caller's `F: {cl['bound']}` (the bound names the tape lifetime, it is "
+                 "not higher-ranked)", ("compile", []), body, "lifetime.closure-bound")
+            # the documented usage, end to end
+            mk = KIND[cl["kind"]][1]
+            recv_expr = "&mut x" if cl["recv"].startswith("&mut") else "&x"
+            body = ("fn main() {\n    let tape: Tape = WengertList::new();\n    let list = &tape;\n"
+                    f"    let mut x = {mk}(list);\n    let k = Record::variable(5.0, list);\n    let c = {recv_expr};\n"
+                    f"    let _ = {cl['call'].replace('{F}', cl['fs'][0])};\n}}\n")
+            emit(f"life_closure_usage_{cl['name']}",
+                 f"[lifetime] documented usage of `{cl['name']}`: combine every element with a separately created record of the "
+                 "same WengertList", ("compile", []), body, "lifetime.closure-usage")
     for name, _kind, src in ROUND_TRIPS:
         emit(f"life_{name}", f"[lifetime] {name}", ("compile", []), src + "\nfn main() {}\n", "lifetime.round-trip")
     return rows
@@ -398,12 +483,34 @@ def scan_conversion_impls(repo):
     return found
 
 
+def scan_closure_methods(repo):
+    """(file, fn name) of every `pub fn` of the record modules with an `impl Fn…(…)` parameter"""
+    found = set()
+    for rel in (D, M, I, X):
+        path = os.path.join(repo, rel)
+        if not os.path.exists(path):
+            continue
+        t = gen_structs.strip_comments_and_strings(open(path).read())
+        for m in re.finditer(r"pub fn\s+(\w+)\s*(<[^(]*>)?\s*\(", t):
+            i = m.end() - 1
+            e = gen_structs.match_close(t, i, "(", ")")
+            generics = m.group(2) or ""
+            if re.search(r"\bFn(Mut|Once)?\s*\(", t[i:e + 1] + generics):
+                found.add((rel, m.group(1)))
+    return found
+
+
 def coverage(repo):
     covered = set(BORROWING)
     for e in ENTRIES:
         covered |= set(e["covers"])
     found = scan_entry_points(repo) | scan_conversion_impls(repo)
-    return sorted(found - covered), len(found)
+    closure_covered = set(CLOSURES_WITHOUT_TAPE)
+    for cl in CLOSURES:
+        closure_covered |= set(cl["covers"])
+    closure_found = scan_closure_methods(repo)
+    missing = sorted(found - covered) + sorted((f, n + " (closure parameter)") for f, n in closure_found - closure_covered)
+    return missing, len(found) + len(closure_found)
 
 
 if __name__ == "__main__":
